@@ -72,8 +72,8 @@ class Workspace:
 
     # ------------------------------------------------------------------ running the CLI
 
-    def run(self, force=False, config='config.yml', timeout=120, audit_log=None):
-        """Returns ('ok',) | ('error', exception class, message). The child is a fork of this process."""
+    def run(self, force=False, config='config.yml', timeout=120, audit_log=None, extra_args=()):
+        """Returns ('ok',) | ('error', exception class, message, is a tranp error). The child is a fork of this process."""
         import rogw.tranp.bin.transpile as cli   # imported in the parent once; the child only constructs objects
         r, w = os.pipe()
         sys.stdout.flush()
@@ -97,12 +97,13 @@ class Workspace:
                             if p.startswith(cache_base):
                                 os.write(log_fd, (os.path.relpath(p, os.path.realpath(self.root)) + '\n').encode())
                     sys.addaudithook(hook)
-                argv = ['-c', config] + (['-f'] if force else [])
+                argv = ['-c', config] + (['-f'] if force else []) + list(extra_args)
                 try:
                     cli.App(cli.TranspileApp.definitions(cli.Args(argv))).run(cli.TranspileApp.run)
                     msg = json.dumps(['ok'])
                 except BaseException as e:  # noqa  -- what bin/transpile.py prints through ErrorRender
-                    msg = json.dumps(['error', type(e).__name__, str(e)[:300]])
+                    from rogw.tranp.errors import Errors
+                    msg = json.dumps(['error', type(e).__name__, str(e)[:300], isinstance(e, Errors.Error)])
                 os.write(w, msg.encode())
             except BaseException:  # noqa
                 code = 3
